@@ -100,6 +100,9 @@ func (p *ProofU) reconstructUcommit(pk *gabikeys.PublicKey) (*big.Int, error) {
 	Ucommit.Mul(Ucommit, R0s).Mod(Ucommit, pk.N)
 
 	for i, miUserResponse := range p.MUserResponses {
+		if i == 0 {
+			return nil, errors.New("secret key base cannot have a second response")
+		}
 		Rimi, err := common.ModPow(pk.R[i], miUserResponse, pk.N)
 		if err != nil {
 			return nil, err
@@ -220,6 +223,9 @@ func (p *ProofD) reconstructZ(pk *gabikeys.PublicKey) (*big.Int, error) {
 	numerator := new(big.Int).Lsh(big.NewInt(1), pk.Params.Le-1)
 	numerator.Exp(p.A, numerator, pk.N)
 	for i, attribute := range p.ADisclosed {
+		if i == 0 {
+			return nil, errors.New("secret key attribute cannot be disclosed")
+		}
 		if _, hidden := p.AResponses[i]; hidden {
 			return nil, errors.New("attribute is both disclosed and hidden")
 		}
